@@ -2,7 +2,7 @@
 published schema.
 
 For every feasible path of the notebook merge exploration (default-strategy
-script product under 'mergetool' and under the default strategy; 38 conflict
+script product under 'mergetool' and under the default strategy; 40 conflict
 scripts x the whole strategy product x 3 back ends) and of the generic
 decide_merge exploration (triples of lists / nested lists / objects):
 
